@@ -8,16 +8,27 @@
   the generated type) and re-encodes (`goEncode` = json.Marshal) to a JSON-equal document up to
   omission of null members (`Json.eqv`).
 
+  Part (c), pass widening, is proved on the PLAIN fragment of the pre-chain IR (`Plain`,
+  Cog/Sem/SrcDen.lean: no disjunction, intersection, anonymous struct / enum in type position,
+  constant reference): through the REAL regenerated Go chain (`Cog.Gen.Chains.goChain`, run by
+  `Cog.Passes.runChain` over the per-pass models), every document of the source-side language
+  `srcDen` of the pre-chain IR (a non-required field may be absent whatever its type) belongs to
+  `den` of the post-chain IR, for the same type and fuel (`C01_pass_widening_plain_partial`), hence
+  decodes and re-encodes JSON-equal (`C01_source_roundtrip_plain_partial`).  The tie of `Plain`,
+  `srcDen` and of the pass models to the code is the `c01-src` stream (harness/c01_src.go).
+
   What is NOT proved and stays under the correspondence check only (stated in the evidence):
-  (b) parser soundness `valid D root d → den (parse_f D) root d` and (c) that the Go chain's passes
-  only widen `den`; the strict decoder (see C08).  The tie between `goDecode/goEncode` and the real
-  generated code is the golab correspondence stream.
+  (b) parser soundness `valid D root d → srcDen (parse_f D) root d`; (c) outside the plain fragment;
+  the strict decoder (see C08).  The tie between `goDecode/goEncode` and the real generated code is
+  the golab correspondence stream.
 
   The full statement (without the fragment restrictions) is FALSE on the current tree; the
   counterexamples below are evaluated on the model and replayed on real generated code by the check.
 -/
 import Cog.Sem.RoundTrip
 import Cog.Sem.DenMono
+import Cog.Sem.WidenChain
+import Cog.Gen.Chains
 namespace Cog.Sem
 open Cog.IR GoVal
 
@@ -111,5 +122,83 @@ theorem C01_counterexample_unknown_discriminator :
 
 /-- the union example does round-trip for a mapped discriminator (non-vacuity of the union case) -/
 example : den 8 exUnion (.ref "p" "AOrB" {}) (.obj [("kind", .str "b")]) = true := by decide +kernel
+
+/-! ## (c) pass widening through the regenerated Go chain -/
+
+open Cog.Passes Cog.Gen.Chains
+
+/-- the FULL statement of (c): for every pre-chain IR the front-ends can produce, every document of
+    the source-side language of a named object belongs to `den` of the same object after the Go
+    chain (at some fuel).  Proved below on the plain fragment only. -/
+def C01_pass_widening_full : Prop :=
+  ∀ (S S' : Schemas) (pkg name : String) (n : Nat) (j : Json), runChain goChain S = .ok S' →
+    srcDen n S (.ref pkg name {}) j = true → ∃ n', den n' S' (.ref pkg name {}) j = true
+
+/-- Pass widening on the plain fragment, through the real regenerated Go chain: a document of the
+    source-side language `srcDen` of the pre-chain IR `S` belongs to `den` of the post-chain IR `S'`,
+    for the same (plain) type — in particular for every reference to a named object — at the same
+    fuel.  `S'` is plain again. -/
+theorem C01_pass_widening_plain_partial (S S' : Schemas) (hP : Plain S = true)
+    (hrun : runChain goChain S = .ok S') (n : Nat) (t : Ty) (ht : plainTy t = true) (j : Json)
+    (h : srcDen n S t j = true) : den n S' t j = true :=
+  (widen_chain goChain (by decide) S S' hP hrun).2 n t j ht h
+
+theorem C01_chain_keeps_plain (S S' : Schemas) (hP : Plain S = true)
+    (hrun : runChain goChain S = .ok S') : Plain S' = true :=
+  (widen_chain goChain (by decide) S S' hP hrun).1
+
+/-- (c) + (d): a source-valid document (in `srcDen` of the plain pre-chain IR) of a named object is
+    decoded without error by the generated Go type of the post-chain IR and re-encodes JSON-equal up
+    to omission of null members. -/
+theorem C01_source_roundtrip_plain_partial (S S' : Schemas) (hP : Plain S = true)
+    (hrun : runChain goChain S = .ok S') (n : Nat) (pkg name : String) (j : Json)
+    (h : srcDen n S (.ref pkg name {}) j = true) :
+    ∃ j', goRoundTrip n S' pkg name j = .ok j' ∧ Json.eqv j' j = true :=
+  C01_object_roundtrip_partial S' n pkg name j
+    (C01_pass_widening_plain_partial S S' hP hrun n _ rfl j h)
+
+/-- the same for any plain type in field position -/
+theorem C01_source_roundtrip_type_plain_partial (S S' : Schemas) (hP : Plain S = true)
+    (hrun : runChain goChain S = .ok S') (n : Nat) (t : Ty) (ht : plainTy t = true) (j : Json)
+    (h : srcDen n S t j = true) :
+    ∃ v, goDecode n S' t j = .ok v ∧ Json.eqv (goEncode v) j = true :=
+  C01_codec_roundtrip_partial S' n t j (C01_pass_widening_plain_partial S S' hP hrun n t ht j h)
+
+/-! ### non-vacuity: a plain pre-chain IR with an optional scalar, an optional reference, an
+    optional array, a named enum; a document omitting all optional fields -/
+
+def srcRootTy : Ty :=
+  .struct [
+    { name := "name", ty := tStr, required := true },
+    { name := "count", ty := .scalar "int64" .nil [] m0, required := false },
+    { name := "tags", ty := .array tStr m0, required := false },
+    { name := "child", ty := .ref "p" "Root" m0, required := false },
+    { name := "mode", ty := .ref "p" "Mode" m0, required := false }] [] none m0
+
+def srcModeTy : Ty :=
+  .enum [{ name := "asc", value := .str "asc", kind := "string" },
+         { name := "desc", value := .str "desc", kind := "string" }] m0
+
+def exSrc : Schemas :=
+  [{ pkg := "p", objects := [
+      ("Root", { name := "Root", selfPkg := "p", selfName := "Root", ty := srcRootTy }),
+      ("Mode", { name := "Mode", selfPkg := "p", selfName := "Mode", ty := srcModeTy })] }]
+
+def exSrcDoc : Json := .obj [("name", .str "x"), ("child", .obj [("name", .str "y"), ("mode", .str "desc")])]
+
+/-- the hypotheses of the two theorems hold for the example; the pre-chain IR itself is NOT in `den`
+    (its optional fields are not pointers): the widening is what the passes contribute -/
+example : Plain exSrc = true ∧
+    (match runChain goChain exSrc with | .ok _ => true | _ => false) = true ∧
+    srcDen 8 exSrc (.ref "p" "Root" {}) exSrcDoc = true ∧
+    den 8 exSrc (.ref "p" "Root" {}) exSrcDoc = false ∧
+    (match runChain goChain exSrc with
+     | .ok S' => den 8 S' (.ref "p" "Root" {}) exSrcDoc && roundTripsOK S' "p" "Root" exSrcDoc
+     | _ => false) = true := by
+  refine ⟨by decide +kernel, by decide +kernel, by decide +kernel, by decide +kernel, by decide +kernel⟩
+
+/-- a member outside the enum is rejected at the source (and accepted by `den`, which only reads the kind) -/
+example : srcDen 8 exSrc (.ref "p" "Root" {}) (.obj [("name", .str "x"), ("mode", .str "up")]) = false := by
+  decide +kernel
 
 end Cog.Sem
